@@ -24,13 +24,27 @@ THEOREMS = [
     "C13.exact_mariadb",
     "C13.exact_mssql",
     "C13.exact_oracle",
-    "C13.exact",
+    "C13.exact_partial",
+    "C13.exact_unfolded",
+    "C13.exact_counterexample",
+    "C13.exact_postgresql_identity",
+    "C13.pg_identity_alter",
     "C13.schema_partial",
     "C13.schema_counterexample",
+    "C13.addressed_counterexample",
     "C13.computed_raises",
     "C13.identity_unsupported_raises",
 ]
 PARTIAL = {
+    "C13.exact_partial": "full statement C13.exact_statement (every kind of server default) is false: PostgreSQL's identity visitor "
+    "treats any request involving an Identity whose existing default is not None as identity->identity (C13.exact_counterexample); "
+    "proved for plain/None server defaults on all seven dialects (the domain the property text names), plus "
+    "C13.exact_postgresql_identity / C13.pg_identity_alter / C13.computed_raises / C13.identity_unsupported_raises for the "
+    "identity/computed transitions the code supports or rejects; Oracle identity transitions are covered by correspondence only",
+    "C13.addressed_counterexample": "full statement C13.addressed_statement (every statement refers to the column by its current name) is "
+    "false: toimpl adds the new type's CHECK constraint on the old column name after the rename; for the attribute statements the "
+    "addressing is part of Spec.Alter.applyStmt and therefore of C13.exact_partial; no separate positive theorem for the constraint "
+    "statements (checked on every implementation output by Spec.Alter.addressOk)",
     "C13.schema_partial": "full statement C13.schema_statement (every statement carries the schema on every dialect) is false on "
     "Oracle when a comment change is requested with a schema: COMMENT ON COLUMN drops the schema (C13.schema_counterexample)",
 }
@@ -53,7 +67,7 @@ RULE = (
 )
 ASSUMPTIONS = [
     "table/column/schema names are plain identifiers; comments contain no quote characters",
-    "server defaults of the property's domain are plain values or None; identity/computed defaults are covered by separate theorems",
+    "C13.exact_partial: server defaults are plain values or None; identity/computed defaults are covered by separate theorems and by the known finding C13-PG-IDENTITY-ASSUMED",
 ]
 
 REQ_ATTRS = ["type", "nullable", "server_default", "new_name", "comment", "autoinc"]
@@ -172,6 +186,19 @@ def offenders(req, stmts):
     return [st for st in stmts if (st.get("schema"), st.get("table")) != (req.get("schema"), req.get("table"))]
 
 
+def misaddressed(req, stmts):
+    """statements that refer to the column by a name it does not have at that point of the script"""
+    cur = req.get("column")
+    out = []
+    for st in stmts:
+        c = st.get("col")
+        if c is not None and c != cur:
+            out.append(st)
+        if st["k"] in ("rename", "mysqlChange"):
+            cur = st["new"]
+    return out
+
+
 def value_kinds(req):
     def k(tri):
         if tri["k"] != "set":
@@ -242,6 +269,7 @@ class Batch:
             if unknown:
                 continue
             schema_reported = False
+            address_reported = False
             for init in inits:
                 s = next(ans)
                 if "err" in s:
@@ -255,18 +283,23 @@ class Batch:
                     ctx.fail(inp, "schema: a statement does not carry the requested table/schema",
                              impl={"offenders": offenders(req, stmts), "script": r["text"][:1500]},
                              tags=["schema", dialect])
+                if not s.get("address", True) and not address_reported:
+                    address_reported = True
+                    ctx.fail(inp, "address: a statement refers to the column by a name it does not have at that point of the script",
+                             impl={"misaddressed": misaddressed(req, stmts), "stmts": impl_view["stmts"], "script": r["text"][:1500]},
+                             tags=["address", dialect])
                 if not s["exact"]:
+                    # identity/computed defaults are outside the domain of C13.exact_partial; a spec failure there is
+                    # still a property failure on the real code (matched against the PG identity known finding)
                     kind = "exact" if s["plain"] else "exact-nonplain"
                     if kind == "exact-nonplain":
-                        # identity/computed defaults are outside the property's stated domain (server default: value or None);
-                        # the transitions the code supports are covered by their own theorems; recorded, not a failure
-                        ctx.hist("outside_domain_spec_false", "%s req=%s ex=%s" % (dialect, vk[0], vk[1]))
-                        continue
+                        ctx.hist("nonplain_spec_false", "%s req=%s ex=%s" % (dialect, vk[0], vk[1]))
                     ctx.fail({**inp, "init": init},
-                             "exact: the emitted statements do not take the column to 'existing overridden by requested' "
-                             "(keep=%s requested=%s final=%s)" % (s["keep"], s["requested"], json.dumps(s["final"])),
-                             impl={"stmts": impl_view["stmts"], "err": r["err"], "script": r["text"][:1500]},
-                             tags=["exact", dialect])
+                             "%s: the emitted statements do not take the column to 'existing overridden by requested' "
+                             "(keep=%s requested=%s final=%s)" % (kind, s["keep"], s["requested"], json.dumps(s["final"])),
+                             impl={"stmts": impl_view["stmts"], "err": r["err"], "script": r["text"][:1500],
+                                   "default_kinds": [vk[0], vk[1]]},
+                             tags=[kind, dialect])
         self.cases.clear()
 
 
@@ -274,7 +307,7 @@ def run(ctx, rng_name="main", draws=None):
     rng = ctx.rng(rng_name)
     b = Batch(ctx, rng_name)
     if draws is None:
-        draws = (2, 4) if ctx.thorough else (1, 1)
+        draws = (4, 10) if ctx.thorough else (1, 1)
     n_plain, n_exotic = draws
     for dialect in ai.DIALECTS:
         for schema in (False, True):
@@ -285,6 +318,7 @@ def run(ctx, rng_name="main", draws=None):
                     for _ in range(n_exotic):
                         b.add(dialect, draw_values(rng, requested, stated, schema, True))
     b.flush()
+    shrink_failures(ctx)
     ctx.exhaustive = True
     ctx.extra["presence_patterns"] = 7 * 2 * 64 * 32
     # the witnesses of the counterexample theorems, replayed on the implementation
@@ -293,9 +327,97 @@ def run(ctx, rng_name="main", draws=None):
 
 
 # ---------------------------------------------------------------------------------------------
+# shrinking of failing inputs (greedy removal of request arguments, the failure kind must persist)
+
+
+def _verdict(ctx, dialect, req, init):
+    """-> 'schema' | 'exact' | None for one request on the real code"""
+    r = ai.run_impl(dialect, req)
+    stmts, unknown = ai.parse_script(dialect, r["text"])
+    if unknown:
+        return None, r, stmts
+    lreq = ai.to_lean(dialect, req)
+    inits = [init] if init is not None else init_states(ctx.rng("shrink"), dialect, lreq)
+    for i in inits:
+        s = ctx.drv.ask1({"op": "alter.spec", "dialect": dialect, "req": lreq, "init": i, "stmts": stmts, "err": r["err"]})
+        if "err" in s or not s.get("agrees"):
+            continue
+        if not s["schema"]:
+            return ("schema", i, s), r, stmts
+        if not s.get("address", True):
+            return ("address", i, s), r, stmts
+        if not s["exact"]:
+            return ("exact" if s["plain"] else "exact-nonplain", i, s), r, stmts
+    return None, r, stmts
+
+
+def shrink_failures(ctx, per_key=1):
+    seen = {}
+    extra = []
+    for f in list(ctx.failures):
+        if classify(f) is not None:
+            continue
+        kind = f["what"].split(":")[0]
+        dialect = f["input"]["dialect"]
+        key = (kind, dialect)
+        if seen.get(key, 0) >= per_key:
+            continue
+        seen[key] = seen.get(key, 0) + 1
+        req = json.loads(json.dumps(f["input"]["req"]))
+        init = f["input"].get("init")
+        changed = True
+        while changed:
+            changed = False
+            for a in REQ_ATTRS + EX_ATTRS + ["using", "schema"]:
+                cur = req.get(a)
+                empty = {"k": "unset"} if isinstance(cur, dict) else None
+                if cur == empty or cur is None:
+                    continue
+                trial = dict(req)
+                trial[a] = empty
+                t_init = init
+                if init is not None and a in EX_ATTRS:
+                    t_init = init  # the initial column still agrees: fewer stated values constrain less
+                v, r, stmts = _verdict(ctx, dialect, trial, t_init)
+                if v is not None and v[0] == kind:
+                    req = trial
+                    changed = True
+        v, r, stmts = _verdict(ctx, dialect, req, init)
+        if v is None:
+            continue
+        # compact form (absent = not passed) so that the runner, which reports the smallest input, picks it
+        inp = {"dialect": dialect, "req": {k: x for k, x in req.items() if x is not None and x != {"k": "unset"}}}
+        if kind.startswith("exact"):
+            inp["init"] = v[1]
+        extra.append((inp, f["what"].split(" (")[0] + " [shrunk] (keep=%s requested=%s final=%s)" % (
+            v[2]["keep"], v[2]["requested"], json.dumps(v[2]["final"])),
+            {"stmts": [_strip(s) for s in stmts], "err": r["err"], "script": r["text"][:1500],
+             "offenders": offenders(req, stmts), "misaddressed": misaddressed(req, stmts),
+             "default_kinds": list(value_kinds({**{a: None for a in REQ_ATTRS + EX_ATTRS + ["using"]},
+                                                "server_default": {"k": "unset"}, "ex_default": {"k": "unset"},
+                                                "comment": {"k": "unset"}, **req})[:2])}, f["tags"]))
+    for inp, what, impl, tags in extra:
+        ctx.fail(inp, what, impl=impl, tags=tags)
+
+
+# ---------------------------------------------------------------------------------------------
 # known findings
 
 WITNESSES = {
+    "C13-TYPE-CONSTRAINT-AFTER-RENAME": {
+        "dialect": "default",
+        "req": {"table": "t1", "column": "c1", "schema": None, "type": "bool_ck", "nullable": None,
+                "server_default": {"k": "unset"}, "new_name": "c2", "comment": {"k": "unset"},
+                "autoinc": None, "ex_type": None, "ex_nullable": None, "ex_default": {"k": "unset"},
+                "ex_comment": None, "ex_autoinc": None, "using": None},
+    },
+    "C13-PG-IDENTITY-ASSUMED": {
+        "dialect": "postgresql",
+        "req": {"table": "t1", "column": "c1", "schema": None, "type": None, "nullable": None,
+                "server_default": {"k": "set", "v": "five"}, "new_name": None, "comment": {"k": "unset"},
+                "autoinc": None, "ex_type": None, "ex_nullable": None, "ex_default": {"k": "set", "v": "id0"},
+                "ex_comment": None, "ex_autoinc": None, "using": None},
+    },
     "C13-ORACLE-COMMENT-SCHEMA": {
         "dialect": "oracle",
         "req": {"table": "t1", "column": "c1", "schema": "s1", "type": None, "nullable": None,
@@ -320,6 +442,18 @@ def check_witness(ctx, finding):
         if off and all(o["k"] == "comment" for o in off):
             return "Oracle COMMENT ON COLUMN is emitted without the schema: %r" % r["text"].strip()
         return None
+    if finding["id"] == "C13-TYPE-CONSTRAINT-AFTER-RENAME":
+        r, stmts, unknown = _replay_witness(ctx, w)
+        mis = misaddressed(w["req"], stmts)
+        if mis and all(o["k"] == "addConstraint" for o in mis):
+            return "the CHECK constraint of the new type is added on the old column name after the rename: %r" % r["text"].strip()
+        return None
+    if finding["id"] == "C13-PG-IDENTITY-ASSUMED":
+        r, stmts, unknown = _replay_witness(ctx, w)
+        if r["err"] is None and [st["k"] for st in stmts] == ["identityAlter"] and stmts[0].get("always") is None \
+                and stmts[0].get("start") is None:
+            return "PostgreSQL emits %r for identity -> plain default and raises nothing" % r["text"].strip()
+        return None
     return None
 
 
@@ -330,8 +464,28 @@ def classify(failure):
         off = (failure.get("impl") or {}).get("offenders") or []
         # only the Oracle COMMENT ON COLUMN statement, with the right table/column but no schema
         req = failure["input"]["req"]
-        if off and all(o["k"] == "comment" and o.get("schema") is None and o.get("table") == req["table"] for o in off):
+        if off and all(o["k"] == "comment" and o.get("schema") is None and o.get("table") == req.get("table") for o in off):
             return "C13-ORACLE-COMMENT-SCHEMA"
+    if "address" in tags:
+        mis = (failure.get("impl") or {}).get("misaddressed") or []
+        stmts = (failure.get("impl") or {}).get("stmts") or []
+        # only the schema-type CHECK constraint added by toimpl after the rename, naming the old column
+        req = failure["input"]["req"]
+        if (mis and all(o["k"] == "addConstraint" and o.get("col") == req.get("column") for o in mis)
+                and stmts and stmts[-1]["k"] == "addConstraint"
+                and any(st["k"] in ("rename", "mysqlChange") for st in stmts[:-1])):
+            return "C13-TYPE-CONSTRAINT-AFTER-RENAME"
+    if "exact-nonplain" in tags and "postgresql" in tags:
+        impl = failure.get("impl") or {}
+        kinds = tuple(impl.get("default_kinds") or ())
+        stmts = impl.get("stmts") or []
+        # PostgreSQL, no exception, an identity is involved on one side only (or the existing default is unstated),
+        # and the only default-related statement is the identity ALTER (SET GENERATED / SET START WITH / nothing)
+        if (impl.get("err") is None
+                and kinds in (("identity", "unset"), ("identity", "plain"), ("plain", "identity"))
+                and any(st["k"] == "identityAlter" for st in stmts)
+                and not any(st["k"] in ("default", "identityAdd", "identityDrop") for st in stmts)):
+            return "C13-PG-IDENTITY-ASSUMED"
     return None
 
 
